@@ -52,11 +52,11 @@ structure ParamDef where
   sel : SelKind := .notSel
   deriving DecidableEq, Repr
 
-/-- what a `depends(.., watch=True)` method depends on: an own parameter `p`, or parameter `x` of the
-object held in parameter `a` (`'a.x'`) -/
+/-- what a `depends(.., watch=True)` method depends on: an own parameter `p`, or a path through sub-objects
+(`'a.x'` = `["a", "x"]`, `'mid.leaf.x'` = `["mid", "leaf", "x"]`) -/
 inductive Dep
   | own (p : String)
-  | sub (a x : String)
+  | path (ps : List String)
   deriving DecidableEq, Repr
 
 structure MethodDef where
@@ -88,7 +88,10 @@ structure Caller where
   owner : Nat
   method : String
   /-- `changed=`: `None`, or a dict {name of the watched parameter -> sub-paths to compare | None} -/
-  changed : Option (List (String × Option (List String)))
+  changed : Option (List (String × Option (List (List String))))
+  /-- `callback=`: `partial(_update_deps_of, obj, attribute)` — a watcher on an intermediate object of a path
+  tells the object owning the method to rebuild its dynamic watchers -/
+  callback : Option (Nat × Option String) := Option.none
   /-- identity of the `functools.partial` object (0 for bound methods, which compare structurally) -/
   pid : Nat
   deriving DecidableEq, Repr
@@ -243,40 +246,58 @@ def World.unwatch (w : World) (wt : Watcher) : World :=
         | some l' => go (w.setObj wt.inst fun ob => { ob with watchers := insert ob.watchers n l' }) ns
   go w wt.names
 
-def mkCaller (w : World) (owner : Nat) (m : String) (changed : Option (List (String × Option (List String)))) : Caller × World :=
-  ({ kind := .mcaller, owner := owner, method := m, changed := changed, pid := w.nextPid },
+def mkCaller (w : World) (owner : Nat) (m : String) (changed : Option (List (String × Option (List (List String)))))
+    (callback : Option (Nat × Option String) := Option.none) : Caller × World :=
+  ({ kind := .mcaller, owner := owner, method := m, changed := changed, pid := w.nextPid, callback := callback },
    { w with nextPid := w.nextPid + 1 })
 
 def dedupS : List String → List String
   | [] => []
   | x :: xs => x :: (dedupS xs).filter (· ≠ x)
 
+def dedupP : List (List String) → List (List String)
+  | [] => []
+  | x :: xs => x :: (dedupP xs).filter (· ≠ x)
+
 def dedupN : List Nat → List Nat
   | [] => []
   | x :: xs => x :: (dedupN xs).filter (· ≠ x)
 
-/-- one resolved dependency (`PInfo`): parameter `name` of object `inst`; `sub`: the sub-path to compare
-when `name` is re-assigned (`None` for the parameter of the sub-object itself) -/
+/-- one resolved dependency (`PInfo`): parameter `name` of object `inst`; `sub`: the rest of the path, compared
+when `name` is re-assigned (`None` for the last parameter of the path); `cb`: the watcher needs the
+parent-notification callback (`inst` is an intermediate object of the path) -/
 structure Contribution where
   inst : Nat
   name : String
-  sub : Option String
+  sub : Option (List String)
+  cb : Bool
   deriving DecidableEq, Repr
 
-/-- `_resolve_mcs_deps(obj, [], [ddep])` for every dynamic dependency, in order: `'a.x'` with `obj.a` an
-object contributes `(obj, a, x)` and `(obj.a, x, None)`, nothing when `obj.a` is None -/
+/-- the dependencies a path resolves to (`_spec_to_obj` with `intermediate=True`): nothing when the first
+attribute holds no object; every object on the way contributes the attribute the path continues through -/
+def World.pathContribs (w : World) : Nat → Nat → List String → List Contribution
+  | _, _, [] => []
+  | _, cur, [x] => [⟨cur, x, Option.none, false⟩]
+  | 0, cur, a :: b :: rest =>
+    match w.getVal cur a with
+    | some (.obj s) => ⟨cur, a, some (b :: rest), false⟩ :: World.pathContribs w 1 s (b :: rest)
+    | _ => []
+  | d + 1, cur, a :: b :: rest =>
+    ⟨cur, a, some (b :: rest), true⟩ ::
+      (match w.getVal cur a with
+       | some (.obj s) => World.pathContribs w (d + 2) s (b :: rest)
+       | _ => [])
+
+/-- `_resolve_mcs_deps(obj, [], [ddep])` for every dynamic dependency, in order -/
 def World.dynContribs (w : World) (o : Nat) : List Dep → List Contribution
   | [] => []
   | .own _ :: rest => World.dynContribs w o rest
-  | .sub a x :: rest =>
-    match w.getVal o a with
-    | some (.obj s) => ⟨o, a, some x⟩ :: ⟨s, x, Option.none⟩ :: World.dynContribs w o rest
-    | _ => World.dynContribs w o rest
+  | .path ps :: rest => w.pathContribs 0 o ps ++ World.dynContribs w o rest
 
 def ownDeps : List Dep → List String
   | [] => []
   | .own p :: rest => p :: ownDeps rest
-  | .sub _ _ :: rest => ownDeps rest
+  | .path _ :: rest => ownDeps rest
 
 /-- the objects depended on, in order of first appearance (the keys of `grouped`) -/
 def groupObjs (cs : List Contribution) : List Nat := dedupN (cs.map (·.inst))
@@ -287,30 +308,34 @@ def groupNames (cs : List Contribution) (g : Nat) : List String :=
 
 /-- `subparams` of `_watch_group`: per parameter name the sub-paths of every dependency of the group, `None`
 as soon as one of them has none -/
-def groupChanged (cs : List Contribution) (g : Nat) : List (String × Option (List String)) :=
+def groupChanged (cs : List Contribution) (g : Nat) : List (String × Option (List (List String))) :=
   (groupNames cs g).map fun n =>
     let subs := (cs.filter (fun c => c.inst = g ∧ c.name = n)).map (·.sub)
-    (n, if subs.any (·.isNone) then Option.none else some (dedupS (subs.filterMap id)))
+    (n, if subs.any (·.isNone) then Option.none else some (dedupP (subs.filterMap id)))
+
+/-- `callback = callback or cb` over the dependencies of the group -/
+def groupCallback (cs : List Contribution) (g : Nat) : Bool := cs.any fun c => c.inst = g && c.cb
 
 /-- `inst.param[dep.name]` for every resolved dependency: the per-instance Parameter copies come into being -/
 def World.touchAll (w : World) : List (Nat × String) → World
   | [] => w
   | (o, p) :: rest => World.touchAll (w.touchParam o p) rest
 
-/-- one `_watch_group` per object depended on -/
-def World.installGroups (w : World) (o : Nat) (m : String) (cs : List Contribution) : List Nat → World × List Watcher
+/-- one `_watch_group` per object depended on; `attr`: the `attribute` the rebuild was started for -/
+def World.installGroups (w : World) (o : Nat) (m : String) (attr : Option String) (cs : List Contribution) :
+    List Nat → World × List Watcher
   | [] => (w, [])
   | g :: gs =>
-    let (c, w1) := mkCaller w o m (some (groupChanged cs g))
+    let (c, w1) := mkCaller w o m (some (groupChanged cs g)) (if groupCallback cs g then some (o, attr) else Option.none)
     let wt : Watcher := { inst := g, fn := c, names := groupNames cs g, precedence := -1 }
-    let (w2, rest) := World.installGroups (w1.addWatcher wt) o m cs gs
+    let (w2, rest) := World.installGroups (w1.addWatcher wt) o m attr cs gs
     (w2, wt :: rest)
 
 /-- the dynamic watchers of one `depends` method of `o`; returned for `dynamic_watchers`
     -- src: Parameters._update_deps, _watch_group, _resolve_dynamic_deps, _resolve_mcs_deps -/
-def World.installDyn (w : World) (o : Nat) (md : MethodDef) : World × List Watcher :=
+def World.installDyn (w : World) (o : Nat) (attr : Option String) (md : MethodDef) : World × List Watcher :=
   let cs := w.dynContribs o md.deps
-  World.installGroups (w.touchAll (cs.map fun c => (c.inst, c.name))) o md.name cs (groupObjs cs)
+  World.installGroups (w.touchAll (cs.map fun c => (c.inst, c.name))) o md.name attr cs (groupObjs cs)
 
 /-- the watcher for the own-parameter dependencies of a method (`init=True` only) -/
 def World.installConst (w : World) (o : Nat) (md : MethodDef) : World :=
@@ -325,28 +350,39 @@ def World.installConst (w : World) (o : Nat) (md : MethodDef) : World :=
 def World.initDeps (w : World) (o : Nat) : List MethodDef → World
   | [] => w
   | md :: rest =>
-    let (w, dynw) := (w.installConst o md).installDyn o md
+    let (w, dynw) := (w.installConst o md).installDyn o Option.none md
     let w := if dynw.isEmpty then w else w.setObj o fun ob => { ob with dyn := insert ob.dyn md.name dynw }
     World.initDeps w o rest
 
-def rootedAt (attr : String) : List Dep → Bool
+/-- has the method a dynamic dependency that `_update_deps(attribute)` selects: every one for `None`, those
+whose path starts at `attribute` otherwise -/
+def rootedAt (attr : Option String) : List Dep → Bool
   | [] => false
-  | .sub a _ :: rest => a == attr || rootedAt attr rest
+  | .path ps :: rest => (match attr with | Option.none => true | some a => ps.head? == some a) || rootedAt attr rest
   | .own _ :: rest => rootedAt attr rest
 
-/-- `_update_deps(attribute)`: a method with a dynamic dependency whose path starts at `attribute` loses
-all its dynamic watchers and gets ALL of them rebuilt -/
-def World.updateDeps (w : World) (o : Nat) (attr : String) : List MethodDef → World
+/-- `_update_deps(attribute)`: a method with a selected dynamic dependency loses all its dynamic watchers and
+gets ALL of them rebuilt -/
+def World.updateDeps (w : World) (o : Nat) (attr : Option String) : List MethodDef → World
   | [] => w
   | md :: rest =>
     if rootedAt attr md.deps then
       let old := ((w.objs[o]?).bind (fun ob => lookup ob.dyn md.name)).getD []
       let w := w.setObj o fun ob => { ob with dyn := erase ob.dyn md.name }
       let w := old.foldl (fun w wt => w.unwatch wt) w
-      let (w, dynw) := w.installDyn o md
+      let (w, dynw) := w.installDyn o attr md
       let w := if dynw.isEmpty then w else w.setObj o fun ob => { ob with dyn := insert ob.dyn md.name dynw }
       World.updateDeps w o attr rest
     else World.updateDeps w o attr rest
+
+/-- the callback of a method caller: `_update_deps_of(obj, attribute)` = `obj.param._update_deps(attribute)` -/
+def World.runCallback (w : World) (cb : Option (Nat × Option String)) : World :=
+  match cb with
+  | Option.none => w
+  | some (obj, attr) =>
+    match (w.objs[obj]?).bind (fun ob => w.cls? ob) with
+    | some c => w.updateDeps obj attr c.methods
+    | Option.none => w
 
 /-! ### dispatch -/
 
@@ -357,26 +393,54 @@ def insertByPrec (wt : Watcher) : List Watcher → List Watcher
 /-- `sorted(watchers, key=precedence)` (stable) -/
 def sortByPrec (l : List Watcher) : List Watcher := l.foldr insertByPrec []
 
-/-- `_skip_event` for one changed-name: are `old.x` and `new.x` equal (a missing object is `Undefined`,
+/-- `_getattrr(obj, 'b.x', None)`: follow the path, `None` when an object on the way is missing -/
+def World.pathGet (w : World) : Val → List String → Val
+  | v, [] => v
+  | .obj o, p :: rest =>
+    match w.getVal o p with
+    | some v => World.pathGet w v rest
+    | Option.none => .none
+  | _, _ => .none
+
+/-- `_skip_event` for one sub-path: are `old.<path>` and `new.<path>` equal (a missing object is `Undefined`,
 equal to nothing) -/
-def subEq (w : World) (old new : Val) (x : String) : Bool :=
+def subEq (w : World) (old new : Val) (path : List String) : Bool :=
   match old, new with
-  | .obj o1, .obj o2 =>
-    match w.getVal o1 x, w.getVal o2 x with
-    | some v1, some v2 => valEq w.cells v1 v2
-    | _, _ => false
+  | .obj _, .obj _ => valEq w.cells (w.pathGet old path) (w.pathGet new path)
   | _, _ => false
 
-/-- `_call_watcher` + `_sync_caller` for an event on parameter `p`: returns the invocation, if the method
-runs.  `_skip_event`: `changed.get(p)` missing or None -> not skipped -/
-def callWatcher (w : World) (wt : Watcher) (p : String) (old new : Val) : Option (Nat × String) :=
-  if valEq w.cells old new then Option.none          -- onlychanged
-  else match wt.fn.kind, wt.fn.changed with
-    | .mcaller, some d =>
-      match lookup d p with
-      | some (some names) => if names.all (subEq w old new) then Option.none else some (wt.fn.owner, wt.fn.method)
-      | _ => some (wt.fn.owner, wt.fn.method)
-    | _, _ => some (wt.fn.owner, wt.fn.method)
+/-- `_skip_event(*events, changed=..)`: skipped iff every event's parameter has sub-paths and they all compare equal -/
+def skipEvents (w : World) (changed : Option (List (String × Option (List (List String))))) :
+    List (String × Val × Val) → Bool
+  | evs =>
+    match changed with
+    | Option.none => false
+    | some d => evs.all fun (p, old, new) =>
+        match lookup d p with
+        | some (some paths) => paths.all (subEq w old new)
+        | _ => false
+
+/-- `_sync_caller(*events)`: the callback first, then — unless the events are skipped — the method;
+returns the world (the callback may have rebuilt watchers) and the invocation, if any -/
+def invoke (w : World) (wt : Watcher) (evs : List (String × Val × Val)) : World × Option (Nat × String) :=
+  match wt.fn.kind with
+  | .mcaller =>
+    let w := w.runCallback wt.fn.callback
+    (w, if skipEvents w wt.fn.changed evs then Option.none else some (wt.fn.owner, wt.fn.method))
+  | _ => (w, some (wt.fn.owner, wt.fn.method))
+
+/-- the dispatch loop of `Parameter.__set__` outside a batch: `_call_watcher` for every watcher of the
+(sorted copy of the) list; `onlychanged` watchers see only changes -/
+def dispatch (w : World) (p : String) (old new : Val) : List Watcher → World
+  | [] => w
+  | wt :: rest =>
+    if valEq w.cells old new then dispatch w p old new rest
+    else
+      let (w, inv) := invoke w wt [(p, old, new)]
+      let w := match inv with
+        | some e => { w with log := w.log ++ [e] }
+        | Option.none => w
+      dispatch w p old new rest
 
 /-! ### operations -/
 
@@ -406,7 +470,8 @@ inductive Op
   | pedit (o : Nat) (p : String) (e : PEdit)               -- `obj.param.p.bounds = ..`
   | setAttr (o : Nat) (name : String) (a : Arg)            -- `obj.name = a` (not a parameter)
   | mutAttr (o : Nat) (name : String) (n : Int)            -- `obj.name.append(n)`
-  | watch (o : Nat) (p : String) (target : Nat) (cb : String)   -- `obj.param.watch(target.cb, [p])`
+  | watch (o : Nat) (ps : List String) (target : Nat) (cb : String)   -- `obj.param.watch(target.cb, [p, ..])`
+  | update (o : Nat) (kvs : List (String × Arg))           -- `obj.param.update(p=v, ..)`: one batch
   | selAdd (o : Nat) (p : String) (n : Int)                -- `obj.param.p.objects['k<n>'] = n`
   | watchPartial (o : Nat) (p : String) (target : Nat) (cb : String)   -- `obj.param.watch(partial(target.cb, 'T'), [p])`
   | watchSlot (o : Nat) (p : String) (target : Nat) (cb : String)      -- `obj.param.watch(target.cb, [p], what='bounds')`
@@ -471,9 +536,9 @@ def doSet (w : World) (o : Nat) (p : String) (a : Arg) : Except Err World :=
         match w.getVal o p, w.ensureInObjects o p v with
         | some old, some w =>
           let w := w.setObj o fun ob => { ob with values := insert ob.values p v }
-          let w := w.updateDeps o p c.methods
+          let w := w.updateDeps o (some p) c.methods
           let ws := sortByPrec (((w.objs[o]?).bind (fun ob => lookup ob.watchers p)).getD [])
-          .ok { w with log := w.log ++ ws.filterMap (fun wt => callWatcher w wt p old v) }
+          .ok (dispatch w p old v ws)
         | _, _ => .error .unsupported
       else .error .unsupported
 
@@ -522,14 +587,63 @@ def doMutAttr (w : World) (o : Nat) (name : String) (n : Int) : Except Err World
   | some (.cell c) => .ok { w with cells := w.cells.set c (deref w.cells c ++ [n]) }
   | _ => .error .unsupported
 
-def doWatch (w : World) (o : Nat) (p : String) (target : Nat) (cb : String) : Except Err World :=
+def doWatch (w : World) (o : Nat) (ps : List String) (target : Nat) (cb : String) : Except Err World :=
   match w.objs[o]?, w.objs[target]? with
   | some _, some t =>
     if ((w.cls? t).map (·.hasAttr cb)).getD false then
       .ok (w.addWatcher { inst := o, fn := { kind := .bound, owner := target, method := cb, changed := Option.none, pid := 0 },
-                          names := [p], precedence := 0 })
+                          names := ps, precedence := 0 })
     else .error .unsupported
   | _, _ => .error .unsupported
+
+/-- one assignment inside a batch: store, rebuild dependencies, and *queue* — every watcher of the parameter
+that sees a change is queued once (`any(watcher is w ..)`; equal records are one object here, see `noDupB`),
+the event is recorded under the parameter's name -/
+def updateOne (w : World) (o : Nat) (c : ClassDef) (p : String) (a : Arg)
+    (evs : List (String × Val × Val)) (queued : List Watcher) :
+    Option (World × List (String × Val × Val) × List Watcher) :=
+  if c.params.any (·.name = p) then
+    let (v, w) := evalArg w a
+    let w := w.touchParam o p
+    match w.getVal o p, w.ensureInObjects o p v with
+    | some old, some w =>
+      let w := w.setObj o fun ob => { ob with values := insert ob.values p v }
+      let w := w.updateDeps o (some p) c.methods
+      let ws := sortByPrec (((w.objs[o]?).bind (fun ob => lookup ob.watchers p)).getD [])
+      if valEq w.cells old v || ws.isEmpty then some (w, evs, queued)
+      else some (w, insert evs p (old, v), ws.foldl (fun q wt => if q.contains wt then q else q ++ [wt]) queued)
+    | _, _ => Option.none
+  else Option.none
+
+def updateLoop (w : World) (o : Nat) (c : ClassDef) :
+    List (String × Arg) → List (String × Val × Val) → List Watcher →
+    Option (World × List (String × Val × Val) × List Watcher)
+  | [], evs, queued => some (w, evs, queued)
+  | (p, a) :: rest, evs, queued =>
+    match updateOne w o c p a evs queued with
+    | some (w1, evs1, q1) => updateLoop w1 o c rest evs1 q1
+    | Option.none => Option.none
+
+/-- the flush at the end of the batch: every queued watcher, in (stable) precedence order, is called once with
+the events of *its* parameter names -/
+def flush (w : World) (evs : List (String × Val × Val)) : List Watcher → World
+  | [] => w
+  | wt :: rest =>
+    let mine := wt.names.filterMap fun n => (lookup evs n).map fun e => (n, e)
+    let (w, inv) := invoke w wt mine
+    let w := match inv with
+      | some e => { w with log := w.log ++ [e] }
+      | Option.none => w
+    flush w evs rest
+
+/-- `obj.param.update(p=v, ..)` -- src: Parameters._update, _call_watcher (batched), _batch_call_watchers -/
+def doUpdate (w : World) (o : Nat) (kvs : List (String × Arg)) : Except Err World :=
+  match (w.objs[o]?).bind (fun ob => w.cls? ob) with
+  | Option.none => .error .unsupported
+  | some c =>
+    match updateLoop w o c kvs [] [] with
+    | Option.none => .error .unsupported
+    | some (w1, evs, queued) => .ok (flush w1 evs (sortByPrec queued))
 
 def doWatchPartial (w : World) (o : Nat) (p : String) (target : Nat) (cb : String) : Except Err World :=
   match w.objs[o]?, w.objs[target]? with
@@ -561,7 +675,8 @@ def step (w : World) : Op → Except Err World
   | .pedit o p e => doPEdit w o p e
   | .setAttr o name a => doSetAttr w o name a
   | .mutAttr o name n => doMutAttr w o name n
-  | .watch o p t cb => doWatch w o p t cb
+  | .watch o ps t cb => doWatch w o ps t cb
+  | .update o kvs => doUpdate w o kvs
   | .selAdd o p n => doSelAdd w o p n
   | .watchPartial o p t cb => doWatchPartial w o p t cb
   | .watchSlot o p t cb => doWatchSlot w o p t cb
@@ -578,7 +693,8 @@ def runOps : World → List Op → Except Err World
 
 def Obj.refs (ob : Obj) : List Nat :=
   let ofVal : Val → List Nat := fun v => match v with | .obj o => [o] | _ => []
-  let ofW : Watcher → List Nat := fun wt => [wt.inst, wt.fn.owner]
+  let ofW : Watcher → List Nat := fun wt =>
+    [wt.inst, wt.fn.owner] ++ (match wt.fn.callback with | some cb => [cb.1] | Option.none => [])
   ob.values.flatMap (fun kv => ofVal kv.2) ++ ob.attrs.flatMap (fun kv => ofVal kv.2) ++
   ob.watchers.flatMap (fun kv => kv.2.flatMap ofW) ++ ob.dyn.flatMap (fun kv => kv.2.flatMap ofW) ++
   ob.pcopies.flatMap (fun kv => kv.2.swatchers.flatMap ofW)
@@ -601,7 +717,8 @@ def renVal (no nc : Nat) : Val → Val
   | v => v
 
 def renCaller (no np : Nat) (c : Caller) : Caller :=
-  { c with owner := no + c.owner, pid := match c.kind with | .bound => c.pid | _ => np + c.pid }
+  { c with owner := no + c.owner, pid := (match c.kind with | .bound => c.pid | _ => np + c.pid),
+           callback := c.callback.map fun cb => (no + cb.1, cb.2) }
 
 def renWatcher (no np : Nat) (wt : Watcher) : Watcher :=
   { wt with inst := no + wt.inst, fn := renCaller no np wt.fn }
